@@ -133,6 +133,7 @@ def run(res, tier, seed, shard, nshards):
                 declared_pairs(res, W, rng, job[1])
 
     H.in_sim(scen, watchdog=3000)
+    W.enableTrace(False)
 
 
 def record_exception(res, W, e, phase, label, case, conn):
@@ -165,6 +166,9 @@ def size_monitor(res, conn, phase, label, case):
 def handshake_case(res, W, rng, job, ji):
     _, label, data, emb = job
     H.reset_process_state()
+    if ji % 7 == 0:
+        W.enableTrace(True, handler=_NULL)
+        res.count("handshake_cases_with_trace_on")
     ending = ("eof", "silence")[ji % 2]
     if emb == "random":
         n = rng.choice([1, 5, 20, 100, 400])
@@ -231,6 +235,10 @@ def handshake_case(res, W, rng, job, ji):
         res.sample(case, cap=2)
 
 
+import logging as _logging
+
+_NULL = _logging.NullHandler()
+
 API_VARIANTS = [("recv", {}), ("recv_data_frame", {}), ("recv_frame", {}), ("recv", {"skip_utf8_validation": True}),
                 ("recv_data_frame", {"fire_cont_frame": True}), ("close", {}), ("recv", {"fire_cont_frame": True}),
                 ("recv", {"fire_cont_frame": True, "skip_utf8_validation": True})]
@@ -282,6 +290,10 @@ def frame_case(res, W, rng, job, ji, tier):
             stream = bytes([rng.choice([0x81, 0x82, 0x01, 0x02, 0x80, 0x88, 0x89, 0x8A, 0x00]), rng.choice([0, 1, 2, 10, 125, 126, 127])]) + stream
         variants = [rng.choice(API_VARIANTS)]
     ending = ("eof", "silence")[(ji // 3) % 2]
+    trace_on = (ji % 5 == 0)
+    W.enableTrace(trace_on, handler=_NULL)
+    if trace_on:
+        res.count("frame_cases_with_trace_on")
     for name, kw in variants:
         res.count("frame_cases")
         res.case(("F", stream, ending, name, tuple(kw)), nontrivial=True)
